@@ -376,7 +376,7 @@ fn run(ctx: &Ctx) {
     let plans = [
         GenPlan {
             gen: "full-nobig",
-            cases: ctx.tier.pick(3000, 150_000),
+            cases: ctx.tier.pick(10_000, 300_000),
             min_len: 24,
             max_len: ctx.tier.pick(1500, 3000),
         },
